@@ -160,6 +160,10 @@ func (c01) Gen(r *Rand, idx int, tier string) interface{} {
 			m.AbortKind = Pick(r, []string{"", "", "queue-dead", "reset", "bad-reset", "bad"})
 			if (m.AbortKind == "" || m.AbortKind == "reset") && r.Pct(40) {
 				m.AbortFull = 1 + r.Intn(2)
+				if m.AbortKind == "" && m.Abort%3 == 0 {
+					// (decided by a value already drawn: the other plans of a batch stay what they were)
+					m.AbortKind, m.Abort = "retry", 0
+				}
 				m.Abort += m.AbortFull * body
 				m.AbortType = 1 + r.Intn(23)
 			}
@@ -254,6 +258,9 @@ func (c01) Shrink(plan interface{}) []interface{} {
 				q.Msgs[i].Abort = 1
 			}
 			q.Msgs[i].AbortFull, q.Msgs[i].AbortType = 0, 0
+			if m.AbortKind == "retry" {
+				q.Msgs[i].AbortKind = ""
+			}
 			out = append(out, &q)
 		}
 		if m.Abort > 1 && m.AbortFull == 0 {
@@ -385,6 +392,7 @@ func (c01) Run(plan interface{}, schedSeed uint64, replay []simrt.Choice, lenien
 	var setupErr string
 	var sendErrs, aborted []string
 	sizesSeen := make([]int, len(p.Msgs))
+	retried := make([]bool, len(p.Msgs)) // kind retry: the repeated flush reported success
 	out := s.Run(func() {
 		conn, err := tds.NewConn(context.Background(), MkInfo(100, 5, false))
 		if err != nil {
@@ -463,6 +471,18 @@ func (c01) Run(plan interface{}, schedSeed uint64, replay []simrt.Choice, lenien
 						ch.Reset()
 					}
 					cancelDl()
+				case "retry":
+					// the package fills its packets exactly: all of them go out while it is queued and only the
+					// end-of-message packet is missing. The flush with a cancelled context fails; the caller
+					// repeats it with a live one. What the second flush reports and what is on the wire must agree.
+					if err := ch.QueuePackage(ctx, t); err != nil {
+						sendErrs = append(sendErrs, fmt.Sprintf("message %d: queueing the package whose flush is repeated: %v", mi, err))
+					} else if err := ch.SendRemainingPackets(dead); err == nil {
+						aborted = append(aborted, fmt.Sprintf("message %d: a flush with a cancelled context reported success", mi))
+					} else {
+						ch.CurrentHeaderType = tds.PacketHeaderType(m.AbortType)
+						retried[mi] = ch.SendRemainingPackets(ctx) == nil
+					}
 				case "reset":
 					if err := ch.QueuePackage(ctx, t); err != nil {
 						sendErrs = append(sendErrs, fmt.Sprintf("message %d: queueing the package to be abandoned: %v", mi, err))
@@ -667,6 +687,27 @@ func (c01) Run(plan interface{}, schedSeed uint64, replay []simrt.Choice, lenien
 			}
 			v.Probe("abandoned-after-full-packets")
 		}
+		if m.AbortKind == "retry" && v.Class == "" {
+			v.Probe("flush-repeated-after-a-failed-flush")
+			wantCh := uint16(0)
+			if p.Logical && !m.OnZero {
+				wantCh = chanID
+			}
+			isEnd := len(pkts) > 0 && len(pkts[0].Body) == 0 && pkts[0].H.Status&peer.BufstatEOM != 0 && int(pkts[0].H.Type) == m.AbortType && pkts[0].H.Channel == wantCh
+			switch {
+			case retried[mi] && !isEnd:
+				v.Violate("unterminated", "a repeated flush reported success but the message was never terminated", "%s: every packet of the first message was full and went out while it was queued; the flush with a cancelled context failed, the repeated flush returned nil - and no end-of-message packet followed the %d full packets", where, m.AbortFull)
+			case retried[mi]:
+				if p.Logical && !m.OnZero {
+					if expectNr >= 0 && int(pkts[0].H.PacketNr) != expectNr {
+						v.Violate("packet-number", "packet numbers not consecutive", "%s: the end-of-message packet of the repeated flush has number %d, expected %d", where, pkts[0].H.PacketNr, expectNr)
+					}
+					expectNr = (int(pkts[0].H.PacketNr) + 1) % 256
+				}
+				pkts = pkts[1:]
+				v.Probe("flush-repeated:terminated")
+			}
+		}
 		if len(pkts) == 0 && v.Class == "" {
 			v.Violate("nothing-sent", "nothing sent: "+sigB, "%s: no packet of the message reached the transport", where)
 			break
@@ -779,5 +820,5 @@ func (c01) Run(plan interface{}, schedSeed uint64, replay []simrt.Choice, lenien
 
 // RequiredProbes: a batch in which one of these never fired explored nothing of that kind (exit 2, not a pass).
 func (c01) RequiredProbes() []string {
-	return []string{"boundary:d=+0", "boundary:d=-1", "boundary:d=+1", "packet-size-change", "slow-peer-abandoned"}
+	return []string{"boundary:d=+0", "boundary:d=-1", "boundary:d=+1", "packet-size-change", "slow-peer-abandoned", "flush-repeated:terminated"}
 }
